@@ -520,3 +520,56 @@ def _covers(slices):
         if lo in singles and (lo + "+1") in highs:
             return True
     return False
+
+
+# ---------------------------------------------------------------------------
+def r116(ctx, rep, rule="R11.6"):
+    """The value of the objective kept by the solver (filter, history, models,
+    result) is a Python float made from what the user's function returned: a
+    0-d view of the user's output buffer would change when the user's function
+    reuses that buffer."""
+    f = ctx.func("cobyqa.problem:ObjectiveFunction.__call__")
+    cfg = ctx.cfg(f)
+    rd = cfg.reaching_defs()
+    sinks = [ev for ev in ctx.events(f) if any(t.name == "UserFn" for t in ev.sink_targets())]
+    if not sinks:
+        raise AnalysisError("ObjectiveFunction.__call__: call of the user's function not found")
+    n = 0
+    for ev in sinks:
+        # the expression that wraps the call
+        cur = ev.node
+        conv = False
+        while getattr(cur, "_parent", None) is not None and not isinstance(cur, ast.stmt):
+            par = cur._parent
+            if isinstance(par, ast.Call) and isinstance(par.func, ast.Name) and par.func.id == "float" and par.args and par.args[0] is cur:
+                conv = True
+            if isinstance(par, ast.Call) and isinstance(par.func, ast.Attribute) and par.func.attr == "item" and par.func.value is cur:
+                conv = True
+            cur = par
+        st = cur
+        n += 1
+        desc = f"{f.local}:{ev.line} `{norm(st)[:70]}`"
+        if not conv and isinstance(st, ast.Assign) and len(st.targets) == 1 and isinstance(st.targets[0], ast.Name):
+            # converted later, before it is returned?
+            v = st.targets[0].id
+            for node in ast.walk(f.node):
+                if isinstance(node, ast.Call) and isinstance(node.func, ast.Name) and node.func.id == "float" and node.args and isinstance(node.args[0], ast.Name) and node.args[0].id == v:
+                    par = getattr(node, "_parent", None)
+                    if isinstance(par, (ast.Assign, ast.Return)):
+                        conv = True
+        if conv:
+            rep.ok(rule, desc + " is converted to a Python float")
+        else:
+            rep.bad(rule, desc)
+            rep.finding(rule, f, norm(st)[:120], ev.line,
+                        "the objective value is kept as whatever array object the user's function returned (np.squeeze gives a view): if the function reuses its output buffer every stored value (filter, history, result) changes with each later evaluation")
+    return n
+
+
+_old_run11 = run
+
+
+def run(ctx, rep):  # noqa: F811
+    _old_run11(ctx, rep)
+    rep.rule("R11.6", "the objective value kept by the solver is a Python float, not a view of the user's output buffer")
+    r116(ctx, rep)
